@@ -100,6 +100,7 @@ def check_cfg(ctx, fx, cfg):
         f = fx.fn(e)
         ctx.require(f is not None and not f.get("is_async"), "R12.1", "sync-entry:%s@%s" % (e, cfg), "%s must be a synchronous function (a stop request never waits)" % e, fn=e, site=f["loc"] if f else None)
     # R12.2 the bound
+    n_wait_total = [0]
     for fn_, calls in sorted(ctors.items()):
         bi, t = calls[0]
         f = fx.fn(fn_)
@@ -107,10 +108,12 @@ def check_cfg(ctx, fx, cfg):
         if t["callee"].endswith("::channel"):
             rs = roots(b, t["args"][0])
             ctx.require(all(r.kind == "arg" and not r.proj for r in rs) and rs, "R12.2", "buffer-unmodified:%s@%s" % (fn_, cfg), "mpsc::channel must be created with exactly the capacity given: roots %s" % sorted(map(str, rs)), fn=fn_, site=t["l"])
-            # waiting closure of this constructor
+            # the waiting closure over the bounded sender (wherever it is written)
             for kind, cf, key in subs:
-                if kind == "waiting" and cf and cf["def"].startswith(fn_ + "::"):
+                if kind == "waiting" and cf and any("futures_channel::mpsc::Sender<" in u for u in cf.get("upvars", [])):
+                    n_wait_total[0] += 1
                     cos = [fx.fn(st["r"]["def"]) for _bi, _si, st in agg_sites(ctx.body(fx, cf), ak="coroutine")]
+                    ctx.require(len(cos) == 1, "R12.2", "waiting-send-shape:%s@%s" % (cf["def"], cfg), "the bounded waiting closure must return one async block that awaits SinkExt::send on its own clone of the Sender (a Sender handle has a single waker slot: waiters sharing one handle lose wake-ups); found %d async blocks" % len(cos), fn=cf["def"], site=cf["loc"])
                     for co in cos:
                         cb = ctx.body(fx, co)
                         enq = [(ebi, et) for ebi, et in cb.normal_calls() if chan.is_enqueue(et)]
@@ -123,7 +126,8 @@ def check_cfg(ctx, fx, cfg):
                             for o in cb.origins(enq[0][1]["args"][0], through_calls=False):
                                 if o.kind == "call" and (cb.call_at(o).get("callee") or "").endswith("Clone::clone"):
                                     fresh = True
-                        ctx.require(ok and awaited and fresh, "R12.2", "waiting-send-flushes:%s@%s" % (fn_, cfg), "the bounded waiting path must await SinkExt::send (feed + flush) on a fresh clone of the bounded Sender: %s awaited=%s fresh_clone=%s" % ([et["callee"] for _x, et in enq], awaited, fresh), fn=co["def"], site=co["loc"], detail={"fresh_clone": fresh})
+                        ctx.require(ok and awaited and fresh, "R12.2", "waiting-send-flushes:%s@%s" % (cf["def"], cfg), "the bounded waiting path must await SinkExt::send (feed + flush) on a fresh clone of the bounded Sender: %s awaited=%s fresh_clone=%s" % ([et["callee"] for _x, et in enq], awaited, fresh), fn=co["def"], site=co["loc"], detail={"fresh_clone": fresh})
+    ctx.floor("R12.2", "bounded waiting closures (%s)" % cfg, n_wait_total[0], 1)
     for caller, idx in (("actor::builder::BaseActorBuilder::<A, P>::bounded", 1), ("actor::builder::BaseActorBuilder::<A, P>::bounded_on_stream", 1), ("environment::Environment::<A>::bounded", 0)):
         f = fx.fn(caller)
         if f is None:
